@@ -45,6 +45,11 @@ impl<'de> serde::Deserialize<'de> for Bytes {
             }
 
             #[inline(always)]
+            fn visit_bytes<E>(self, items: &[u8]) -> Result<Self::Value, E> {
+                Ok(items.to_vec())
+            }
+
+            #[inline(always)]
             fn visit_byte_buf<E>(self, v: Vec<u8>) -> Result<Self::Value, E>
             where
                 E: serde::de::Error,
